@@ -24,7 +24,12 @@ def cpp_rtype(tok):
     return "void" if tok == "-" else CPP_BASE[tok]
 
 
-def validation_tu(binds_line, results_line):
+CAST_DETECT = """template<class To, class From, class = void> struct can_static_cast : std::false_type {};
+template<class To, class From> struct can_static_cast<To, From, std::void_t<decltype(static_cast<To>(std::declval<From>()))>> : std::true_type {};
+"""
+
+
+def validation_tu(binds_line, results_line, explicit_line=""):
     """static_asserts for every (parameter, argument) pair and every result conversion"""
     L = [PRELUDE]
     n = 0
@@ -34,6 +39,14 @@ def validation_tu(binds_line, results_line):
         P = FORMS[pf] % CPP_BASE[pb]
         A = ("%s const&" if ac == "c" else "%s&") % CPP_BASE[ab]
         L.append("static_assert(std::is_invocable_v<void(*)(%s), %s> == %s, \"binds %s\");" % (P, A, "true" if val == "1" else "false", item))
+        n += 1
+    L.append(CAST_DETECT)
+    for item in explicit_line.split():
+        m = re.match(r"(\w)\.(\w):(\w)([mc])=(\d)", item)
+        pb, pf, ab, ac, val = m.groups()
+        P = FORMS[pf] % CPP_BASE[pb]
+        A = ("%s const&" if ac == "c" else "%s&") % CPP_BASE[ab]
+        L.append("static_assert(can_static_cast<%s, %s>::value == %s, \"explicit %s\");" % (P, A, "true" if val == "1" else "false", item))
         n += 1
     for item in results_line.split():
         m = re.match(r"(\w)>(\w)=(\d)", item)
@@ -57,6 +70,8 @@ class Pairing:
                 return "bind %s %s" % (f[1], ftxt(f[2]))
             if f[0] == "hr":
                 return "hr %s" % ftxt(f[1])
+            if f[0] == "retype":
+                return "retype %s" % ftxt(f[1])
             return "hide %s" % ftxt(f[1])
         return "q %d %s %s | %s" % (len(self.sig), " ".join(self.sig), self.r, ftxt(self.functor))
 
@@ -82,6 +97,8 @@ class Pairing:
                 return "sigc::bind(%s, %s)" % (fexpr(f[2]), val)
             if f[0] == "hr":
                 return "sigc::hide_return(%s)" % fexpr(f[1])
+            if f[0] == "retype":
+                return "sigc::retype(%s)" % fexpr(f[1])
             return "sigc::hide(%s)" % fexpr(f[1])
         e = fexpr(self.functor)
         sig = "%s(%s)" % (cpp_rtype(self.r), ", ".join(map(cpp_ptype, self.sig)))
@@ -126,7 +143,19 @@ def gen_pairings(seed, count):
             elif res == "p":
                 rf = r.choice("pq")
         kind = r.random()
-        if kind < 0.5:
+        if kind < 0.12:
+            # retype(): explicit conversions (downcasts B->D&, B*->D*) become legal, constness must survive
+            ps2 = []
+            for a, pcur in zip(sig, ps):
+                b, f0 = a.split(".")
+                if b == "B" and r.random() < 0.4:
+                    ps2.append("D.%s" % r.choice("lc" if f0 == "l" else "c"))
+                elif b == "p" and r.random() < 0.4:
+                    ps2.append("q.v")
+                else:
+                    ps2.append(pcur)
+            f = ("retype", ("fun", "ptr", ps2, rf)) if r.random() < 0.6 else ("retype", ("mem", 0, r.randint(0, 1), ps2, rf))
+        elif kind < 0.5:
             f = ("fun", r.choice(["ptr", "obj"]), ps, rf)
         elif kind < 0.75:
             mc = r.randint(0, 1)
@@ -151,7 +180,7 @@ def gen_pairings(seed, count):
         # mutations aimed at the rejection classes
         mut = r.random()
         inner = f
-        while inner[0] in ("bind", "hide", "hr"):
+        while inner[0] in ("bind", "hide", "hr", "retype"):
             inner = inner[-1]
 
         def rebuild(f, new_inner):
@@ -161,6 +190,8 @@ def gen_pairings(seed, count):
                 return ("hide", rebuild(f[1], new_inner))
             if f[0] == "hr":
                 return ("hr", rebuild(f[1], new_inner))
+            if f[0] == "retype":
+                return ("retype", rebuild(f[1], new_inner))
             return new_inner
         ips = list(inner[2] if inner[0] == "fun" else inner[3])
         irf = inner[3] if inner[0] == "fun" else inner[4]
@@ -210,8 +241,8 @@ def run(pid, args):
     os.makedirs(workdir, exist_ok=True)
     try:
         # (i) the hand-written conversion rules against the compilers, exhaustively
-        bl, rl = corr.run_model(model_exe, "types", ["binds", "results"])
-        tu, n_asserts = validation_tu(bl, rl)
+        bl, rl, el = corr.run_model(model_exe, "types", ["binds", "results", "explicit"])
+        tu, n_asserts = validation_tu(bl, rl, el)
         compilers = ["g++", "clang++"] if tier == "thorough" or True else ["g++"]
         val_fail = {}
         for cxx in compilers:
@@ -306,8 +337,16 @@ def directed_pairings():
             out.append(Pairing(["%s.%s" % (b, a), "i.v"], "i", ("hide", fun)))
             out.append(Pairing(["%s.%s" % (b, a)], "-", ("bind", "i", ("hr", ("fun", "obj", ["%s.l" % b, "i.v"], "i")))))
             out.append(Pairing(["%s.%s" % (b, a)], "i", ("mem", 0, 0, ["%s.l" % b], "i")))
+            out.append(Pairing(["%s.%s" % (b, a)], "i", ("retype", ("fun", "ptr", ["%s.l" % b], "i"))))
+            out.append(Pairing(["%s.%s" % (b, a)], "i", ("retype", ("fun", "ptr", ["%s.r" % b], "i"))))
+    for a in ("v", "c", "l"):
+        out.append(Pairing(["B.%s" % a], "-", ("retype", ("fun", "ptr", ["D.l"], "-"))))
+        out.append(Pairing(["B.%s" % a], "-", ("retype", ("fun", "ptr", ["D.c"], "-"))))
+        out.append(Pairing(["p.%s" % a], "-", ("retype", ("fun", "ptr", ["q.v"], "-"))))
+        out.append(Pairing(["U.%s" % a], "-", ("retype", ("fun", "ptr", ["B.c"], "-"))))
+        out.append(Pairing(["d.%s" % a], "-", ("retype", ("mem", 0, 0, ["i.v"], "-"))))
     return out
 
 
 def tuplify(x):
-    return tuple(tuplify(y) for y in x) if isinstance(x, list) and x and isinstance(x[0], str) and x[0] in ("fun", "mem", "bind", "hide", "hr") else x
+    return tuple(tuplify(y) for y in x) if isinstance(x, list) and x and isinstance(x[0], str) and x[0] in ("fun", "mem", "bind", "hide", "hr", "retype") else x
